@@ -5,10 +5,24 @@ V = os.path.dirname(os.path.dirname(os.path.abspath(__file__)))
 TB = ('Coq 8.16.1 kernel and vm_compute (no native_compute); stdlib axioms of Reals/Coquelicot as printed per theorem in the evidence '
       '(sig_not_dec, sig_forall_dec, functional_extensionality_dep, classic); translator tools/py2v.py and the correspondence harness; '
       'Python float = IEEE binary64; libm/pyclipper/repr are oracles (DESIGN 3).')
+
 CLAIMED = {
  'C01': ('Evaluation, end points, hodograph derivative and the two de Casteljau retrace identities are proved for all control polygons and all real t, s '
          'over a model regenerated from the source on every run; the 1e-12 float clause is measured against exact rational arithmetic, not proved.',
          'translator-regenerated Gallina model + ring/auto_derive proofs over R; bit-exact kernel cross-check; exact-rational search', '4/C01'),
+ 'C04': ('Proved for all inputs over a model regenerated from the source: the quadrature table has the Gauss-Legendre shape and integrates t^k (k<=5) exactly to 1e-30, '
+         'length is exactly invariant under reversal/translation/rotation and scales by |k|, chord-1e-25*polygon <= length <= (1+1e-25)*polygon, lines are Euclidean and additive. '
+         'The 2% / 0.01% accuracy clause and curve additivity within tolerance are NOT proved (quadrature error analysis of |B\'|): they are measured against adaptive Gauss-Kronrod by the search.',
+         'translator-regenerated model; exact rational table computation lifted to R; sqrt/field proofs; bit-exact kernel cross-check; reference-integral search', '4/C04'),
+ 'C09': ('Full statement over R for all segments, matrices, call lists of any length, angles, centres and t: commutation with evaluation, call-order composition, per-axis scaling incl. zero, '
+         'inverse, rigid ccw rotation about a centre, alignment. Float error (1e-9) is measured, libm is an oracle.',
+         'translator-regenerated model; ring/field + trigonometric lemmas over R; induction on the call list; bit-exact kernel cross-check through a recorded libm table', '4/C09'),
+ 'C10': ('Proved for all inputs: a segment\'s area is the integral of y dx (Coquelicot is_RInt), additive under splitting, negated by reversal, elevation-invariant; for closed polylines the shoelace value equals '
+         'minus the sum of edge areas and is negated/invariant/scaled as stated; Rectangle has signed area -w*h. The 10*length flattening bound and positivity for every simple ccw contour are measured, not proved.',
+         'translator-regenerated kernels + hand model of signed_area/Rectangle with correspondence; is_RInt/ring proofs, induction over edge lists; exact Green-integral search', '4/C10'),
+ 'C19': ('Full statement: includes/overlaps are exactly the closed-range definitions and overlap is symmetric; under the quantifier\'s tie condition the sweep output is a permutation of all overlapping (A,B) pairs, '
+         'each exactly once (soundness and no-duplicates unconditionally; exact iff condition for completeness; refutation witness without the tie condition).',
+         'translator-regenerated predicates + hand model of the sweep (events, stable sort, deques) with exact correspondence; invariant proof over sorted event lists', '4/C19'),
 }
 PENDING_REASON = 'machinery for this property is not built yet in this revision (see DESIGN section 7); it is not claimed on the strength of a search alone'
 ALL = ['C%02d' % i for i in range(1, 21)]
